@@ -55,30 +55,58 @@ func C13(c *Ctx) {
 	// ---- R13.1
 	if gs := c.fn("R13.1", acctPrefix+"GetState"); gs != nil {
 		layers := []string{"dirty", "origin", "cache", "db"}
-		var calls []*ssa.Call
-		for _, l := range layers {
-			cl := layerCall(gs, l)
-			if cl == nil {
-				r.Bad("R13.1", "GetState: "+l+" layer consulted", c.P.Pos(gs.Pos()), "GetState does not read the "+l+" layer")
+		// a layer may be consulted in GetState itself or in a helper of the account it calls (one level):
+		// home[i] is the function holding the lookup, via[i] the call in GetState that leads there (nil = direct)
+		calls := make([]*ssa.Call, len(layers))
+		home := make([]*ssa.Function, len(layers))
+		via := make([]*ssa.Call, len(layers))
+		for i, l := range layers {
+			if cl := layerCall(gs, l); cl != nil {
+				calls[i], home[i] = cl, gs
+				continue
 			}
-			calls = append(calls, cl)
+			for _, call := range core.Calls(gs) {
+				cc, ok := call.(*ssa.Call)
+				g := core.StaticCallee(call)
+				if !ok || g == nil || len(g.Blocks) == 0 || core.PkgOf(g) != ledgerPkg || g == gs {
+					continue
+				}
+				if cl := layerCall(g, l); cl != nil {
+					calls[i], home[i], via[i] = cl, g, cc
+					break
+				}
+			}
+			if calls[i] == nil {
+				r.Bad("R13.1", "GetState: "+l+" layer consulted", c.P.Pos(gs.Pos()), "GetState does not read the "+l+" layer (neither directly nor in a helper it calls)")
+			}
 		}
 		for i := 1; i < len(calls); i++ {
 			prev, cur := calls[i-1], calls[i]
 			if prev == nil || cur == nil {
 				continue
 			}
+			// the function in which the ordering is decided, and the instruction standing for `cur` there
+			f := home[i-1]
+			var curSite ssa.Instruction = cur
+			if home[i] != f {
+				if home[i-1] == gs && via[i] != nil {
+					curSite = via[i] // cur lives in a helper called from GetState
+				} else {
+					r.Unknown("R13.1", "GetState: "+layers[i]+" lookup behind "+layers[i-1]+" miss", c.P.Pos(cur.Pos()), "the two lookups live in different helper functions; ordering not decided")
+					continue
+				}
+			}
 			// miss edge of prev: its second result (found/ok) false
-			miss := condEdges(gs, func(f core.Fact, ifi *ssa.If) (bool, int) {
-				if f.Kind != core.FBool {
+			miss := condEdges(f, func(fc core.Fact, ifi *ssa.If) (bool, int) {
+				if fc.Kind != core.FBool {
 					return false, 0
 				}
-				if ex, ok := f.Subject.(*ssa.Extract); ok && ex.Tuple == ssa.Value(prev) && ex.Index == 1 {
-					return true, 1 - holdsEdge(f)
+				if ex, ok := fc.Subject.(*ssa.Extract); ok && ex.Tuple == ssa.Value(prev) && ex.Index == 1 {
+					return true, 1 - holdsEdge(fc)
 				}
 				return false, 0
 			})
-			c.behindEdges("R13.1", "GetState", gs, miss, func(in ssa.Instruction) bool { return in == ssa.Instruction(cur) }, layers[i-1]+" miss", layers[i]+" lookup")
+			c.behindEdges("R13.1", "GetState", f, miss, func(in ssa.Instruction) bool { return in == curSite }, layers[i-1]+" miss", layers[i]+" lookup")
 		}
 		// stores into originState after reading cache/db
 		isOriginStore := func(in ssa.Instruction) bool {
@@ -90,7 +118,7 @@ func C13(c *Ctx) {
 			return ok2 && f == "originState"
 		}
 		if calls[3] != nil {
-			r.Check(followsAll(gs, func(in ssa.Instruction) bool { return in == ssa.Instruction(calls[3]) }, isOriginStore, false), "R13.1", "GetState: database result remembered in the origin set", c.P.Pos(calls[3].Pos()),
+			r.Check(followsAll(home[3], func(in ssa.Instruction) bool { return in == ssa.Instruction(calls[3]) }, isOriginStore, false), "R13.1", "GetState: database result remembered in the origin set", c.P.Pos(calls[3].Pos()),
 				"originState.Store follows the database read on every path", "a value read from the database is not stored into the origin set (later journal/commit decisions compare against a missing origin)")
 		}
 	}
@@ -134,7 +162,8 @@ func C13(c *Ctx) {
 			call, ok := in.(ssa.CallInstruction)
 			return ok && core.CalleeObj(call) != nil && core.CalleeObj(call).Name() == spec.getter
 		}
-		isStore := func(in ssa.Instruction) bool {
+		var isStoreD func(in ssa.Instruction, d int) bool
+		isStoreD = func(in ssa.Instruction, d int) bool {
 			switch x := in.(type) {
 			case *ssa.Store:
 				_, f, base, ok := core.FieldOf(x.Addr)
@@ -152,9 +181,20 @@ func C13(c *Ctx) {
 					_, f, _, ok := core.FieldOf(core.Receiver(x))
 					return ok && f == spec.field
 				}
+				// an unexported setter of the account that performs the store (e.g. setBalance)
+				if g := core.StaticCallee(x); g != nil && d == 0 && len(g.Blocks) > 0 && core.PkgOf(g) == ledgerPkg && g != fn {
+					for _, b := range g.Blocks {
+						for _, y := range b.Instrs {
+							if isStoreD(y, d+1) {
+								return true
+							}
+						}
+					}
+				}
 			}
 			return false
 		}
+		isStore := func(in ssa.Instruction) bool { return isStoreD(in, 0) }
 		r.Check(len(sites(fn, isGet)) > 0 && len(sites(fn, isStore)) > 0 && precedesAll(fn, isGet, isStore), "R13.2", shortLedger(fn)+": previous value read before the store", c.P.Pos(fn.Pos()),
 			spec.getter+"() precedes the store to "+spec.field, "the undo record of "+spec.fn+" captures the value after it was overwritten (or not at all): a revert restores the new value")
 	}
